@@ -201,6 +201,7 @@ class History:
             self.algs[i] = make_alg(self.pool[i], f"a{i}")
             self.hist[-1] = f"add(new {self.pool[i]} under the same name)"
             ctx.state("another algorithm object added under an existing name")
+        rp_before = probes.digest(self.algs[i].run_params) if op == "mpe" and getattr(self.algs[i], "run_params", None) is not None else None
         try:
             if op in ("add", "replace"):
                 self.setup.add_algorithms(self.algs[i])
@@ -251,6 +252,9 @@ class History:
                     break
                 st[j].update(ran=True, mpe=False)
                 self.any_run = True
+        if expect_exc and exc is not None and rp_before is not None and st[i]["added"] and probes.digest(self.algs[i].run_params) != rp_before:
+            # "an exception is raised and nothing is stored": neither a result nor the arguments of the extraction that did not take place
+            self.fail("gating:rejected_extraction_stored_its_arguments", f"mpe was rejected ({type(exc).__name__}) but run_params changed: {self.algs[i].run_params}")
         if expect_exc and exc is None:
             self.fail(f"gating:{op}_accepted", f"{op} should have raised (algorithm state {st[i] if i >= 0 else st})")
         if not expect_exc and exc is not None:
@@ -409,6 +413,18 @@ def run_bound_when_added(ctx, case):
               lambda: f"{h.tag} pool={pool} history={h.hist}: the result of {pool[0]} is not the one it gives on the records it was added with "
                       f"(algorithm holds fs={getattr(a, 'fs', None)}, {np.shape(a.data) if not isinstance(a.data, list) else len(a.data)} records)")
     ctx.state("algorithm keeps the records bound when it was added")
+    # ... and a setup saved in this state comes back in this state: the algorithm with ITS records and sampling rate, the setup with the processed ones
+    h.data_sha = h.sha_data(h.setup.data)
+    fs_before = (a.fs, a.dt)
+    h.round_trip()
+    import tempfile as _tf
+    from pyoma2.functions import gen as G_
+    with _tf.TemporaryDirectory() as td:
+        G_.save_to_file(h.setup, os.path.join(td, "s.pkl"))
+        s2 = G_.load_from_file(os.path.join(td, "s.pkl"))
+    b = s2.algorithms.get("a0")
+    ctx.check(b is not None and (b.fs, b.dt) == fs_before, "persistence:loaded_algorithm_has_another_sampling_rate",
+              lambda: f"{h.tag} history={h.hist}: after save/load the algorithm holds fs, dt = {(getattr(b, 'fs', None), getattr(b, 'dt', None))}, before {fs_before}")
     ctx.nontrivial(("bound", ms, op, later, tuple(pool)))
 
 
